@@ -174,17 +174,28 @@ def main(tier, seed):
         elems = numpy.empty(outer, dtype=object)
         for idx in numpy.ndindex(*outer):
             elems[idx] = UTPM(numpy.array([dy(rng) for _ in range(D * P * int(numpy.prod(inner, dtype=int)))]).reshape((D, P) + inner))
-        rep.count('as_utpm:outer', outer)
-        rep.case(('as_utpm', outer, inner, D, P, repr([e.data.tolist() for e in elems.reshape(-1)])), True, sample=dict(kind='as_utpm', outer=list(outer), inner=list(inner), D=D, P=P))
-        try:
-            y = UTPM.as_utpm(elems.tolist() if rng.random() < 0.5 else elems)
-            ok = y.data.shape == (D, P) + outer + inner
-            for idx in numpy.ndindex(*outer):
-                ok = ok and numpy.array_equal(y[idx].data, elems[idx].data)
-            if not ok:
-                rep.violation('as_utpm:index', 'as_utpm(xs)[i] != xs[i] for outer shape %s, element shape %s' % (outer, inner), dict(kind='as_utpm', outer=list(outer), inner=list(inner)))
-        except Exception as e:
-            rep.violation('as_utpm:exception', 'as_utpm raises %r for outer shape %s, element shape %s' % (e, outer, inner), dict(kind='as_utpm', outer=list(outer), inner=list(inner), exc=repr(e)))
+        # every way of handing the container over: object array (C order, Fortran order, transposed view), nested lists; both helpers
+        routes = [('as_utpm', UTPM.as_utpm, elems), ('as_utpm', UTPM.as_utpm, elems.tolist()), ('as_utpm', UTPM.as_utpm, numpy.asfortranarray(elems)),
+                  ('ndarray2utpm', algopy.utils.ndarray2utpm, elems), ('ndarray2utpm', algopy.utils.ndarray2utpm, elems.tolist()),
+                  ('ndarray2utpm', algopy.utils.ndarray2utpm, numpy.asfortranarray(elems))]
+        if len(outer) == 2:
+            routes.append(('as_utpm', UTPM.as_utpm, numpy.ascontiguousarray(elems.T).T))
+            routes.append(('ndarray2utpm', algopy.utils.ndarray2utpm, numpy.ascontiguousarray(elems.T).T))
+        for ri, (name, f, arg) in enumerate(routes):
+            form = 'list' if isinstance(arg, list) else ('C' if arg.flags['C_CONTIGUOUS'] else 'strided')
+            rep.count(name + ':outer', outer); rep.count(name + ':container', form)
+            rep.case((name, ri, outer, inner, D, P, repr([e.data.tolist() for e in elems.reshape(-1)])), True, sample=dict(kind=name, container=form, outer=list(outer), inner=list(inner), D=D, P=P))
+            try:
+                y = f(arg)
+                ok = y.data.shape == (D, P) + outer + inner
+                for idx in numpy.ndindex(*outer):
+                    ok = ok and numpy.array_equal(y[idx].data, elems[idx].data)
+                if not ok:
+                    rep.violation('%s:index' % name, '%s(xs)[i] != xs[i] for a %s container of outer shape %s, element shape %s' % (name, form, outer, inner),
+                                  dict(kind=name, container=form, outer=list(outer), inner=list(inner)))
+            except Exception as e:
+                rep.violation('%s:exception' % name, '%s raises %r for a %s container of outer shape %s, element shape %s' % (name, e, form, outer, inner),
+                              dict(kind=name, container=form, outer=list(outer), inner=list(inner), exc=repr(e)))
 
     verdicts, logs = lib.eval_bool_cases(PID, IMPORTS, DEFS, terms, per_file=200)
     bad = 0
